@@ -3,6 +3,7 @@ package main
 import (
 	"fmt"
 	"go/ast"
+	"go/constant"
 	"go/token"
 	"go/types"
 	"strings"
@@ -363,8 +364,9 @@ func ruleTagHelpers(c *Ctx) {
 		keys := map[string]bool{}
 		ast.Inspect(fn.Decl.Body, func(x ast.Node) bool {
 			if call, ok := x.(*ast.CallExpr); ok {
-				if sel, ok := call.Fun.(*ast.SelectorExpr); ok && sel.Sel.Name == "Get" && len(call.Args) == 1 {
-					if v := constOf(info, call.Args[0]); v != nil {
+				// tags.Get("sql") directly, or through a helper that is handed the key
+				for _, a := range call.Args {
+					if v := constOf(info, a); v != nil && v.Kind() == constant.String {
 						keys[v.ExactString()] = true
 					}
 				}
